@@ -60,3 +60,73 @@ func f(done chan int, out chan<- int, g func() int) int {
 		t.Fatalf("temporaries must precede the label:\n%s", s)
 	}
 }
+
+func TestChannelRewrites(t *testing.T) {
+	src := `package p
+
+type pool struct {
+	jobs chan int
+}
+
+func g(n int, f func(int) bool) []bool {
+	out := make([]bool, n)
+	jobs := make(chan int)
+	done := make(chan struct{})
+	go func() {
+		defer close(done)
+	outer:
+		for i := range jobs {
+			if i < 0 {
+				continue
+			}
+			for j := 0; j < 2; j++ {
+				if j == 1 {
+					continue outer
+				}
+			}
+			out[i] = f(i)
+		}
+	}()
+	for i := 0; i < n; i++ {
+		jobs <- i
+	}
+	close(jobs)
+	<-done
+	select {
+	case <-done:
+	default:
+	}
+	return out
+}
+`
+	dir := t.TempDir()
+	if err := os.WriteFile(filepath.Join(dir, "a.go"), []byte(src), 0o644); err != nil {
+		t.Fatal(err)
+	}
+	if _, _, err := instrumentTree(dir); err != nil {
+		t.Fatal(err)
+	}
+	out, _ := os.ReadFile(filepath.Join(dir, "a.go"))
+	if _, err := parser.ParseFile(token.NewFileSet(), "a.go", out, 0); err != nil {
+		t.Fatalf("rewritten source does not parse: %v\n%s", err, out)
+	}
+	s := string(out)
+	for _, want := range []string{
+		"zzsimrt.WaitRecv(jobs); outer:",
+		"{ zzsimrt.WaitRecv(jobs); continue }",
+		"{ zzsimrt.WaitRecv(jobs); continue outer }",
+		":= zzsimrt.WaitSend(jobs); jobs <- i; zzsimrt.AfterSend(",
+		"zzsimrt.Closing(jobs); close(jobs)",
+		"defer func() { zzsimrt.Closing(done); close(done) }()",
+		"zzsimrt.WaitRecv(done); <-done",
+		"zzsimrt.SelectCheck(done); select {",
+	} {
+		if !strings.Contains(s, want) {
+			t.Fatalf("missing %q in:\n%s", want, s)
+		}
+	}
+	lineOf := func(s, marker string) int { return strings.Count(s[:strings.Index(s, marker)], "\n") }
+	if lineOf(s, "return out") != lineOf(src, "return out") {
+		t.Fatalf("line numbers changed:\n%s", s)
+	}
+}
